@@ -74,6 +74,9 @@ for _i in range(200):
     _MD5_RES[_md5('r%d' % _i)] = _i
 
 
+SUBSEC_FRACTIONS = [123456789, 1, 999999999, 500000000, 0]
+
+
 CUSTOM_VALUES = {'0': 0, 'empty-str': '', 'empty-list': [], '1': 1, 'str': 'x', 'list': [0]}
 
 
@@ -137,6 +140,33 @@ class RecordingReporter(object):
 # ----------------------------------------------------------------------------------------------
 # the world: files + task definitions + one DB
 
+_USER_CALC = []
+
+
+def make_user_calc():
+    if not _USER_CALC:
+        from doit.dependency import UptodateCalculator
+
+        class SameResultAs(UptodateCalculator):
+            def __init__(self, dep_name):
+                UptodateCalculator.__init__(self)
+                self.dep_name = dep_name
+                self.key = '_result:%s' % dep_name
+
+            def configure_task(self, task):
+                task.task_dep.append(self.dep_name)
+
+            def __call__(self, task, values):
+                assert self.dep_name in self.tasks_dict
+                now = self.get_val(self.dep_name, 'result:')
+                task.value_savers.append(lambda: {self.key: self.get_val(self.dep_name, 'result:')})
+                last = values.get(self.key)
+                return False if last is None else last == now
+        _USER_CALC.append(SameResultAs)
+    return _USER_CALC[0]
+
+
+FORMS = ['tuple1', 'tuple2', 'tuple3', 'tuple-magic', 'task-only', 'noargs', 'partial', 'method', 'defaults']
 _USER_CHECKERS = {}
 
 
@@ -181,6 +211,9 @@ class World(object):
         self.plan = {}
         self.db = 'deps-' + backend
         self.scramble = 0        # > 0: real mtimes are unique but not monotone
+        self.subsec = False      # real mtimes with a sub-second part
+        self.links = None        # list of paths that are symbolic links to the real file
+        self.pathform = None     # 'path' / 'mixed': file_dep / targets given as pathlib.Path objects
         self.ckcls = None        # 'module' / 'nested': user-defined subclasses of the two checkers (see user_checker)
         self.hashseed = None     # not None: every doit invocation in a fresh interpreter, PYTHONHASHSEED varied
 
@@ -193,14 +226,22 @@ class World(object):
             return T0 + (self.clock * 7919 + self.scramble) % 100003
         return self.clock
 
+    def _ns(self, mtime):
+        """`subsec`: mtimes get a (per tick) sub-second part -- st_mtime is then a float that is not an integer"""
+        return mtime * NS + (SUBSEC_FRACTIONS[mtime % len(SUBSEC_FRACTIONS)] if self.subsec else 0)
+
     def write(self, p, cid, mtime):
-        with open(fname(p), 'w') as f:
+        name = fname(p)
+        if self.links and p in self.links and not os.path.lexists(name):
+            # `links`: the path is a symbolic link to a real file elsewhere; doit follows it (os.stat, open)
+            os.symlink('.real-' + name, name)
+        with open(name, 'w') as f:
             f.write(content_of(cid))
-        os.utime(fname(p), ns=(mtime * NS, mtime * NS))
+        os.utime(name, ns=(self._ns(mtime), self._ns(mtime)))
 
     def touch(self, p, mtime):
         if os.path.exists(fname(p)):
-            os.utime(fname(p), ns=(mtime * NS, mtime * NS))
+            os.utime(fname(p), ns=(self._ns(mtime), self._ns(mtime)))
 
     def delete(self, p):
         if os.path.exists(fname(p)):
@@ -212,6 +253,14 @@ class World(object):
             with open(fname(p), 'w') as f:
                 f.write(content_of(cid))
             os.utime(fname(p), ns=(st.st_mtime_ns, st.st_mtime_ns))
+
+    def _spell(self, name, k):
+        """`pathform`: 'path' = every file_dep / target is a pathlib.Path, 'mixed' = every other one (so that one file
+        is a Path in one task and a str in another); doit converts them with str()"""
+        import pathlib
+        if self.pathform == 'path' or (self.pathform == 'mixed' and k % 2 == 0):
+            return pathlib.PurePosixPath(name) if k % 3 == 0 else pathlib.Path(name)
+        return name
 
     # -- task namespace for ModuleTaskLoader
     def _uptodate(self, item):
@@ -230,6 +279,38 @@ class World(object):
             return result_dep(tname(item[1]))
         if kind == 'shell':
             return 'true' if item[1] else 'false'
+        if kind == 'form':
+            # the written forms of an uptodate item that computes a constant b (True / False / None):
+            #   tuple1 (fn,)   tuple2 (fn, [b])   tuple3 (fn, [], {'flag': b})   tuple-magic (fn(task, values, flag), [b])
+            #   task-only fn(task)   noargs fn()   partial   method (bound method)   defaults fn(task, values, extra=1)
+            form, b = item[1], item[2]
+            if form == 'tuple1':
+                return (lambda: b,)
+            if form == 'tuple2':
+                return (lambda flag: flag, [b])
+            if form == 'tuple3':
+                return (lambda flag=None: flag, [], {'flag': b})
+            if form == 'tuple-magic':
+                return (lambda task, values, flag: flag if (hasattr(task, 'name') and isinstance(values, dict)) else 'bad', [b])
+            if form == 'task-only':
+                return lambda task: b if hasattr(task, 'file_dep') else 'bad'
+            if form == 'noargs':
+                return lambda: b
+            if form == 'partial':
+                import functools
+                return functools.partial(lambda flag, task, values: flag, b)
+            if form == 'method':
+                class Holder(object):
+                    def check(self, task, values):
+                        return b
+                return Holder().check
+            if form == 'defaults':
+                return lambda task, values, extra=1: b
+            raise ValueError(item)
+        if kind == 'usercalc':
+            # a user-written UptodateCalculator with the semantics of result_dep (own implementation: get_val,
+            # tasks_dict, configure_task adding the task_dep, value saver): model item ['res', t]
+            return make_user_calc()(tname(item[1]))
         if kind == 'customv':
             # a callable returning a NON-bool value: doit takes its truth value (None alone means "ignore the item")
             val = CUSTOM_VALUES[item[1]]
@@ -262,8 +343,8 @@ class World(object):
                 return True
 
             def creator(d=d, t=t, action=action):
-                td = {'actions': [action], 'file_dep': [fname(p) for p in d['deps']],
-                      'targets': [fname(p) for p in d['targets']],
+                td = {'actions': [action], 'file_dep': [world._spell(fname(p), t + i) for i, p in enumerate(d['deps'])],
+                      'targets': [world._spell(fname(p), t + i + 1) for i, p in enumerate(d['targets'])],
                       'uptodate': [world._uptodate(i) for i in d['uptodate']]}
                 if d.get('task_dep'):
                     td['task_dep'] = [tname(x) for x in d['task_dep']]
@@ -304,7 +385,8 @@ class World(object):
         self.hashseed += 1
         req = {'backend': self.backend, 'checker': self.checker, 'ntasks': self.ntasks, 'npaths': self.npaths,
                'defs': {str(t): d for t, d in self.defs.items()}, 'plan': self.plan, 'argv': list(argv),
-               'repo': common.REPO, 'want_events': reporter is not None, 'ckcls': self.ckcls}
+               'repo': common.REPO, 'want_events': reporter is not None, 'ckcls': self.ckcls,
+               'subsec': self.subsec, 'links': self.links, 'pathform': self.pathform}
         env = dict(os.environ, PYTHONHASHSEED=str(self.hashseed), VERIF_REPO=common.REPO,
                    PYTHONDONTWRITEBYTECODE='1')
         p = subprocess.run([common.PYTHON, os.path.abspath(__file__), '--child'], input=json.dumps(req), text=True,
@@ -415,6 +497,9 @@ def run_history(case, stop_on_crash=True):
         w.hashseed = int(case['hashseed'])
     w.scramble = int(case.get('scramble') or 0)
     w.ckcls = case.get('ckcls')
+    w.subsec = bool(case.get('subsec'))
+    w.links = case.get('links')
+    w.pathform = case.get('pathform')
     obs = []
     for op in case['ops']:
         kind = op[0]
@@ -509,7 +594,16 @@ def model_def(d):
     """the model's view of a definition: `getargs` from task x is the uptodate item result_dep(x) that
     Task._init_getargs appends (the harness always lists x in task_dep too, so x is processed first: without that the
     implicit item is a *setup* dependency and the order of check and execution belongs to M1)"""
-    utd = [['custom', bool(CUSTOM_VALUES[i[1]])] if i[0] == 'customv' else list(i) for i in d['uptodate']]
+    utd = []
+    for i in d['uptodate']:
+        if i[0] == 'customv':
+            utd.append(['custom', bool(CUSTOM_VALUES[i[1]])])
+        elif i[0] == 'form':
+            utd.append(['custom', i[2]])
+        elif i[0] == 'usercalc':
+            utd.append(['res', i[1]])
+        else:
+            utd.append(list(i))
     if d.get('getargs') is not None:
         utd.append(['res', d['getargs']])
     return {'deps': list(d['deps']), 'targets': list(d['targets']), 'uptodate': utd}
@@ -621,6 +715,11 @@ def to_monitor_events(case, obs):
 # ----------------------------------------------------------------------------------------------
 # canonical DB dumps
 
+def _path_index(name):
+    name = str(name)
+    return int(name[1:]) if name[:1] == 'f' and name[1:].isdigit() else 'odd-name:' + name
+
+
 def canon_impl_db(db, real2model):
     """implementation dump -> the driver's format (mtimes translated, digests mapped back to ids)"""
     if not isinstance(db, list) or (db and db[0] == 'exc'):
@@ -660,7 +759,7 @@ def canon_impl_db(db, real2model):
         out.append({'values': v,
                     'result': None if result is None else _MD5_RES.get(result, 'unknown:%r' % (result,)),
                     'checker': None if rec['checker:'] is None else CK_CLASS.get(rec['checker:'], rec['checker:']),
-                    'deps': None if deps is None else sorted(int(x[1:]) for x in deps),
+                    'deps': None if deps is None else sorted((_path_index(x) for x in deps), key=lambda k: (isinstance(k, str), k)),
                     'fstate': files,
                     'ign': bool(rec['ignore:'])})
     return out
@@ -1081,7 +1180,156 @@ def dictres_cases(full):
     return out
 
 
-SCENARIOS = {'calc': _scn_calc, 'group': _scn_group, 'cfgdict': _scn_cfgdict, 'dictres': _scn_dictres}
+ODD_VARIANTS = ['dir-dep', 'dir-target', 'dangling-dep', 'dangling-target', 'mtime0', 'equal-mtimes']
+RUN = ('run', None)
+
+
+def _scn_oddfiles(case):
+    """one task `t` with a python action; what kind of thing its file_dep / target is varies:
+    dir-dep: file_dep is a DIRECTORY (its mtime changes when an entry is added);  dir-target: the target is a directory
+    the action creates;  dangling-dep: file_dep is a dangling symbolic link (dependency error until the link is
+    repaired);  dangling-target: the target is a dangling link (os.path.exists is false: never up-to-date until it is
+    repaired);  mtime0: a file_dep whose mtime is 0 (st_mtime 0.0 is falsy), with a switch of the checker;
+    equal-mtimes: two file_deps that always share one mtime."""
+    variant = case['variant']
+    names = ['t']
+    td = {'actions': [lambda: True]}
+    calls, codes, sticky, files = {}, (0, None), (), ['main']
+    script = [RUN, RUN, ('edit', 'main'), RUN, RUN]
+
+    def stamp(name, sec, frac=0):
+        os.utime(name, ns=(sec * NS + frac, sec * NS + frac))
+
+    def effect(kind, arg):
+        return set() if (variant == 'dangling-target' and arg == 'repair') else {'t'}
+    if variant == 'dir-dep':
+        td['file_dep'] = ['d']
+        setup = lambda put, state: (os.mkdir('d'), stamp('d', 2000))
+        calls['add-entry'] = lambda put, state: (open('d/x', 'w').close(), stamp('d', 2001))
+        script = [RUN, RUN, RUN, ('call', 'add-entry'), RUN, RUN]
+    elif variant == 'dir-target':
+        td['file_dep'] = ['main']
+        td['targets'] = ['out']
+        td['actions'] = [lambda: os.makedirs('out', exist_ok=True)]
+        setup = None
+        calls['rmdir'] = lambda put, state: os.rmdir('out')
+        script = [RUN, RUN, ('call', 'rmdir'), RUN, RUN, ('edit', 'main'), RUN, RUN]
+    elif variant == 'dangling-dep':
+        td['file_dep'] = ['link']
+        setup = lambda put, state: os.symlink('real', 'link')
+        calls['repair'] = lambda put, state: put('real', 7)
+        codes = (0, None, 2)
+        script = [RUN, RUN, ('call', 'repair'), RUN, RUN, ('edit', 'real'), RUN, RUN]
+    elif variant == 'dangling-target':
+        td['file_dep'] = ['main']
+        td['targets'] = ['link']
+        setup = lambda put, state: os.symlink('real', 'link')
+        calls['repair'] = lambda put, state: put('real', 7)
+        sticky = ('t',)                     # until repaired: see effect of 'repair' below
+        script = [RUN, RUN, ('call', 'repair'), RUN, RUN]
+    elif variant == 'mtime0':
+        td['file_dep'] = ['main']
+        setup = lambda put, state: stamp('main', 0)
+        calls['other-checker'] = lambda put, state: state.__setitem__(
+            'checker', 'md5' if state.get('checker', case['checker']) == 'timestamp' else 'timestamp')
+        calls['rewrite-at-0'] = lambda put, state: (put('main', 9), stamp('main', 0))
+        script = [RUN, RUN, ('call', 'other-checker'), RUN, RUN, ('call', 'other-checker'), RUN, RUN, ('edit', 'main'), RUN, RUN]
+    else:
+        td['file_dep'] = ['main', 'other']
+        files = ['main', 'other']
+        setup = lambda put, state: (stamp('main', 3000, 5), stamp('other', 3000, 5))
+        calls['swap'] = lambda put, state: (put('main', 2), put('other', 1), stamp('main', 3001), stamp('other', 3001))
+        script = [RUN, RUN, ('call', 'swap'), RUN, RUN]
+
+    def mk(state):
+        return {'task_t': lambda: dict(td)}
+    scn = {'names': names, 'mk': mk, 'effect': effect, 'sel': [], 'files': files, 'script': script, 'calls': calls,
+           'codes': codes, 'sticky': sticky}
+    if setup is not None:
+        scn['setup'] = setup
+    if variant == 'dangling-target':
+        def repair(put, state):
+            put('real', 7)
+            scn['sticky_off'] = True
+        calls['repair'] = repair
+    return scn
+
+
+UTDTIME_VARIANTS = ['timeout-big', 'timeout-timedelta', 'timeout-zero', 'ts-unchanged', 'ts-unchanged-ge',
+                    'ts-unchanged-mtime0', 'cfg-encoder']
+
+
+def _scn_utdtime(case):
+    """uptodate helpers of doit.tools that M2 does not model, on a task with a file_dep of its own:
+    timeout(10**9) / timeout(timedelta(days=1)): true once a success is recorded;  timeout(0): never true;
+    check_timestamp_unchanged('stamp'): false when the mtime of `stamp` differs from the saved one (cmp_op=operator.ge:
+    an OLDER mtime counts as unchanged);  config_changed(dict, encoder=): a dict with a set value (custom JSONEncoder),
+    key order changed (not a change) vs. value changed."""
+    import datetime
+    import json as _json
+    import operator
+    from doit import tools
+    variant = case['variant']
+    names = ['t']
+    calls, sticky, files = {}, (), ['main']
+    script = [RUN, RUN, RUN, ('edit', 'main'), RUN, RUN]
+    holder = {}
+
+    def effect(kind, arg):
+        if kind == 'call' and arg in ('reorder', 'older', 'zero'):
+            return set()
+        return {'t'}
+    if variant.startswith('timeout'):
+        limit = {'timeout-big': 10 ** 9, 'timeout-timedelta': datetime.timedelta(days=1), 'timeout-zero': 0}[variant]
+        item = lambda state: tools.timeout(limit)
+        if variant == 'timeout-zero':
+            sticky = ('t',)
+    elif variant.startswith('ts-unchanged'):
+        files = ['main', 'stamp']
+        ge = variant.endswith('-ge')
+        item = lambda state: tools.check_timestamp_unchanged('stamp', 'mtime', operator.ge) if ge else \
+            tools.check_timestamp_unchanged('stamp')
+        calls['newer'] = lambda put, state: os.utime('stamp', ns=(9000 * NS, 9000 * NS))
+        calls['older'] = lambda put, state: os.utime('stamp', ns=(500 * NS, 500 * NS))
+        script = [RUN, RUN, ('call', 'newer'), RUN, RUN, ('edit', 'main'), RUN, RUN]
+        if variant.endswith('mtime0'):
+            # the watched file has mtime 0 (a falsy saved value) at first
+            calls['zero'] = lambda put, state: os.utime('stamp', ns=(0, 0))
+            script = [('call', 'zero'), RUN, RUN, RUN, ('call', 'newer'), RUN, RUN]
+        if ge:
+            script = [RUN, RUN, ('call', 'older'), RUN, ('call', 'newer'), RUN, RUN]
+    else:
+        class SetEncoder(_json.JSONEncoder):
+            def default(self, o):
+                return sorted(o) if isinstance(o, (set, frozenset)) else _json.JSONEncoder.default(self, o)
+        holder['cfg'] = {'b': {3, 1, 2}, 'a': {'y': [1, {'k': 2}], 'x': None}}
+        item = lambda state: tools.config_changed(holder['cfg'], encoder=SetEncoder)
+        calls['reorder'] = lambda put, state: holder.__setitem__('cfg', {'a': {'x': None, 'y': [1, {'k': 2}]}, 'b': {2, 3, 1}})
+        calls['change'] = lambda put, state: holder.__setitem__('cfg', {'a': {'x': None, 'y': [1, {'k': 3}]}, 'b': {2, 3, 1}})
+        script = [RUN, RUN, ('call', 'reorder'), RUN, ('call', 'change'), RUN, RUN, ('edit', 'main'), RUN, RUN]
+
+    def mk(state):
+        return {'task_t': lambda: {'actions': [lambda: True], 'file_dep': ['main'], 'uptodate': [item(state)]}}
+    return {'names': names, 'mk': mk, 'effect': effect, 'sel': [], 'files': files, 'script': script, 'calls': calls,
+            'sticky': sticky}
+
+
+def odd_cases(full):
+    out = []
+    n = 0
+    for kind, variants in (('oddfiles', ODD_VARIANTS), ('utdtime', UTDTIME_VARIANTS)):
+        for variant in variants:
+            for ck in CHECKERS:
+                for b in BACKENDS:
+                    n += 1
+                    if not full and b != BACKENDS[(n // 3) % 3]:
+                        continue
+                    out.append({'kind': kind, 'variant': variant, 'backend': b, 'checker': ck, 'par': None,
+                                'ntasks': 1, 'npaths': 1, 'ops': []})
+    return out
+
+
+SCENARIOS = {'oddfiles': _scn_oddfiles, 'utdtime': _scn_utdtime, 'calc': _scn_calc, 'group': _scn_group, 'cfgdict': _scn_cfgdict, 'dictres': _scn_dictres}
 
 
 def group_cases(full):
@@ -1127,6 +1375,9 @@ def evaluate_calc(case):
         for name in scn['files']:
             put(name, cid)
             cid += 1
+        if 'setup' in scn:
+            scn['setup'](put, state)
+        sticky = set(scn.get('sticky', ()))      # tasks that can never be up-to-date by definition
         pending = set(names)          # tasks whose inputs changed since their last successful execution
         for i, (kind, arg) in enumerate(scn['script']):
             if kind == 'edit':
@@ -1141,6 +1392,12 @@ def evaluate_calc(case):
                 os.utime(arg, ns=(clock[0] * NS, clock[0] * NS))
                 pending |= scn['effect'](kind, arg)
                 v.obs.append({'kind': 'touch', 'what': arg})
+                continue
+            if kind == 'call':
+                # a scenario-specific change of the world (make a directory entry, repair a link, switch the checker...)
+                scn['calls'][arg](put, state)
+                pending |= scn['effect'](kind, arg)
+                v.obs.append({'kind': 'call', 'what': arg})
                 continue
             if kind == 'bump':
                 # something that is not a file changes (a configuration dict, the value a task computes)
@@ -1159,7 +1416,7 @@ def evaluate_calc(case):
             ns = scn['mk'](state)
             rep = RecordingReporter()
             ns['DOIT_CONFIG'] = {'dep_file': 'deps-' + case['backend'], 'backend': case['backend'], 'verbosity': 0,
-                                 'check_file_uptodate': case['checker'], 'reporter': rep}
+                                 'check_file_uptodate': state.get('checker', case['checker']), 'reporter': rep}
             out, err = io.StringIO(), io.StringIO()
             with contextlib.redirect_stdout(out), contextlib.redirect_stderr(err):
                 try:
@@ -1172,16 +1429,23 @@ def evaluate_calc(case):
                           'expected': sorted(pending), 'stderr': err.getvalue()[-300:] if code not in (0, None) else ''})
             v.n_exec += len(executed)
             v.n_skip += len(skipped)
-            if code not in (0, None):
+            crashed = code == 3 and 'Traceback' in err.getvalue()
+            if crashed:
+                v.crash = (i, classify_traceback(err.getvalue()) or 'Exception')
+                v.obs[-1]['stderr'] = err.getvalue()[-300:]
+            elif code not in scn.get('codes', (0, None)):
                 v.divergence = (i, '%s scenario: doit run exited %s' % (case['kind'], code), executed, sorted(pending))
                 break
             for n in executed:
-                if n not in pending:
+                if n not in pending and (n not in sticky or scn.get('sticky_off')):
                     v.c04.append((i, n, 'exec'))
             for n in skipped:
-                if n in pending:
+                if n in pending or (n in sticky and not scn.get('sticky_off')):
                     v.c03.append((i, n, 'skip'))
-            pending = set()
+            # a task is refreshed only by a successful execution (it was reported as executed and doit did not crash)
+            failed = {n for k, n, _ in rep.events if k == 'add_failure'}
+            done = set(executed) - failed if not crashed else set()
+            pending = (pending - done) if (crashed or failed) else set()
     finally:
         os.chdir(old)
         shutil.rmtree(d, ignore_errors=True)
@@ -1189,6 +1453,13 @@ def evaluate_calc(case):
 
 
 def render_calc(case):
+    if case.get('kind') in ('oddfiles', 'utdtime'):
+        scn = SCENARIOS[case['kind']](case)
+        out = ['%s scenario (%s): backend=%s checker=%s' % (case['kind'], case['variant'], case['backend'], case['checker']),
+               (SCENARIOS[case['kind']].__doc__ or '').strip().split('\n')[0]]
+        for kind, arg in scn['script']:
+            out.append('doit run' if kind == 'run' else '%s %s' % (kind, arg))
+        return out
     if case.get('kind') in ('cfgdict', 'dictres'):
         par = ' -n 2 -P thread' if case.get('par') else ''
         if case['kind'] == 'cfgdict' and case['variant'] == 'same-object':
@@ -1249,6 +1520,12 @@ def render(case):
     extra = ''
     if case.get('scramble'):
         extra += ' mtimes-non-monotone(%d)' % case['scramble']
+    if case.get('pathform'):
+        extra += ' file_dep/targets-as-pathlib(%s)' % case['pathform']
+    if case.get('subsec'):
+        extra += ' sub-second-mtimes'
+    if case.get('links'):
+        extra += ' symlinks=%s' % [fname(p) for p in case['links']]
     if case.get('ckcls'):
         extra += ' checker-classes=user-defined(%s)' % case['ckcls']
     if case.get('hashseed') is not None:
@@ -1321,7 +1598,7 @@ def shrink(case, still_fails, max_evals=120):
         for op in c['ops']:
             if op[0] == 'redefine':
                 m = max(m, op[1] + 1)
-                m = max([m] + [i[1] + 1 for i in op[2]['uptodate'] if i[0] == 'res'])
+                m = max([m] + [i[1] + 1 for i in op[2]['uptodate'] if i[0] in ('res', 'usercalc')])
                 if op[2].get('getargs') is not None:
                     m = max(m, op[2]['getargs'] + 1)
             elif op[0] in ('forget', 'ignore', 'reset-dep'):
@@ -1569,6 +1846,16 @@ def enrich(case, rr):
         c['ckcls'] = 'nested'
     elif r < 0.30:
         c['ckcls'] = 'module'
+    r = rr.random()
+    if r < 0.15:
+        c['pathform'] = 'path'
+    elif r < 0.30:
+        c['pathform'] = 'mixed'
+    if rr.random() < 0.3:
+        c['subsec'] = True
+    if rr.random() < 0.2:
+        nsrc = max(1, c['npaths'] - c['ntasks'])
+        c['links'] = sorted(rr.sample(range(nsrc), rr.randint(1, nsrc)))
     falsy, truthy = ['0', 'empty-str', 'empty-list'], ['1', 'str', 'list']
     empties = []
     ops = []
@@ -1576,8 +1863,14 @@ def enrich(case, rr):
         if op[0] == 'redefine':
             utd = []
             for it in op[2]['uptodate']:
-                if it[0] == 'custom' and it[1] is not None and rr.random() < 0.6:
+                x = rr.random()
+                if it[0] == 'custom' and it[1] is not None and x < 0.45:
                     utd.append(['customv', rr.choice(truthy if it[1] else falsy)])
+                elif it[0] in ('custom', 'const', 'shell') and x < 0.75:
+                    # another written form of an item that computes the same constant
+                    utd.append(['form', rr.choice(FORMS), it[1]])
+                elif it[0] == 'res' and x < 0.35:
+                    utd.append(['usercalc', it[1]])
                 else:
                     utd.append(it)
             if rr.random() < 0.12:
@@ -1797,13 +2090,16 @@ def exhaustive_cases(maxlen, macro_len=None, shared_len=None, utd_len=None):
     return out
 
 
-def expand_corpus(prop):
-    """corpus cases; a case with 'matrix': true runs on every backend x both checkers"""
+def expand_corpus(prop, full=True):
+    """corpus cases; a case with 'matrix': true runs on every backend x both checkers (`full`), or -- quick tier -- on two
+    of the six combinations (both checkers, backends rotating with the position of the seed)"""
     out = []
-    for name, c in common.load_corpus(prop):
+    for idx, (name, c) in enumerate(common.load_corpus(prop)):
         if c.get('matrix'):
-            for b in BACKENDS:
-                for ck in CHECKERS:
+            for bi, b in enumerate(BACKENDS):
+                for ci, ck in enumerate(CHECKERS):
+                    if not full and bi != (idx + ci) % 3:
+                        continue
                     cc = json.loads(json.dumps(c))
                     cc['backend'], cc['checker'] = b, ck
                     cc['scramble'] = 0 if (len(out) % 2) else 4242
@@ -1828,7 +2124,7 @@ def nontrivial(case, v):
 
 def strip(case):
     return {k: case[k] for k in ('backend', 'checker', 'ntasks', 'npaths', 'ops', 'hashseed', 'scramble', 'kind', 'order', 'consumers',
-                                    'par', 'subs', 'ckcls', 'variant') if k in case}
+                                    'par', 'subs', 'ckcls', 'variant', 'subsec', 'links', 'pathform') if k in case}
 
 
 def failing_predicate(prop):
@@ -1857,6 +2153,22 @@ def process_batch(arg):
         st.traces += 1
         st.count('origin:' + origin)
         st.count('mtimes:' + ('non-monotone' if case.get('scramble') else 'monotone'))
+        for knob in ('pathform', 'ckcls'):
+            if case.get(knob):
+                st.count('knob:%s:%s' % (knob, case[knob]))
+        for knob in ('subsec', 'links'):
+            if case.get(knob):
+                st.count('knob:' + knob)
+        if case.get('kind') in SCENARIOS:
+            st.count('scenario(monitors-only):%s:%s' % (case['kind'], case.get('variant') or case.get('order') or case.get('subs')))
+        for op in case['ops']:
+            if op[0] == 'redefine':
+                for it in op[2]['uptodate']:
+                    st.count('utd:' + (it[0] + ':' + str(it[1]) if it[0] in ('form', 'customv') else it[0]))
+                if op[2].get('getargs') is not None:
+                    st.count('utd:getargs+task_dep')
+            elif op[0] == 'edit' and op[2] == EMPTY:
+                st.count('edit:empty-file')
         if case.get('hashseed') is not None:
             st.count('mode:fresh-interpreter-per-invocation')
         st.count('backend:' + case['backend'])
@@ -1926,9 +2238,8 @@ def run_property(ctx, prop, n_random, exh_len, macro_len, parallel_share=0.0, n_
     """corpus first, then the small-scope exhaustive tier, then random histories -- in rounds, until everything is
     done or the time budget of the tier is used up (what was left out is written to the evidence)"""
     items = []
-    corpus = expand_corpus(prop)
-    for name, c in corpus:
-        items.append(('corpus', c))
+    full = (ctx.tier != 'quick' or ctx.boost > 1)
+    corpus = expand_corpus(prop, full)
     seeds = [c for _, c in corpus]
     calc = calc_cases(full=(ctx.tier != 'quick' or ctx.boost > 1))
     ctx.extra['calc_dep_scenarios'] = len(calc)
@@ -1938,11 +2249,17 @@ def run_property(ctx, prop, n_random, exh_len, macro_len, parallel_share=0.0, n_
     ctx.extra['group_result_dep_scenarios'] = len(grp)
     for c in grp:
         items.append(('group-scenario', c))
-    full = (ctx.tier != 'quick' or ctx.boost > 1)
     more = cfgdict_cases(full) + dictres_cases(full)
     ctx.extra['config_dict_and_dict_result_scenarios'] = len(more)
     for c in more:
         items.append((c['kind'] + '-scenario', c))
+    odd = odd_cases(full)
+    ctx.extra['odd_files_and_time_item_scenarios'] = len(odd)
+    for c in odd:
+        items.append((c['kind'] + '-scenario', c))
+    # the scripted scenario families are few and cheap: they run before the (larger) corpus
+    for name, c in corpus:
+        items.append(('corpus', c))
     ex = exhaustive_cases(exh_len, macro_len, shared_len, utd_len)
     ex.sort(key=lambda c: len(c['word'].split(':')[-1]))
     ctx.extra['exhaustive_small_scope'] = {
@@ -2039,6 +2356,7 @@ def _child_main():
     w.defs = {int(t): d for t, d in req['defs'].items()}
     w.plan = req['plan']
     w.ckcls = req.get('ckcls')
+    w.subsec, w.links, w.pathform = bool(req.get('subsec')), req.get('links'), req.get('pathform')
     rep = RecordingReporter() if req['want_events'] else None
     code, out, err = w.doit(req['argv'], rep)
     print(json.dumps({'code': code, 'out': out, 'err': err, 'events': rep.events if rep else []}))
